@@ -298,6 +298,14 @@ func Gen(rng *rand.Rand, pf Profile, scn string) *Plan {
 		K, nPh = 1+rng.Intn(2), 2
 	case "neg-window":
 		K, nPh = 1+rng.Intn(2), 2
+	case "connlimited":
+		if c09 {
+			// several streams share the connection window: grants that are too small for all of them
+			K = 2 + rng.Intn(3)
+			if K > pf.MaxStreams {
+				K = pf.MaxStreams
+			}
+		}
 	case "bighdr":
 		side = 0 // the client connection is the in-memory one: its capacity and read pace are ours
 		p.PipeCap = 4096
@@ -349,6 +357,9 @@ func Gen(rng *rand.Rand, pf Profile, scn string) *Plan {
 		}
 		p.WinClass[e] = cls
 		p.Gran[e] = pick(rng, "1B", "small", "small", "frame", "frame", "huge")
+		if scn == "connlimited" && c09 && e == side {
+			p.Gran[e] = pick(rng, "frame", "frame", "small")
+		}
 		if p.SlowWriter && !c09 {
 			p.Gran[e] = pick(rng, "frame", "huge", "huge")
 		}
@@ -1206,6 +1217,9 @@ func Gen(rng *rand.Rand, pf Profile, scn string) *Plan {
 			if scn == "bidi" || ((scn == "backlog" || scn == "raise-queued-end") && x == side) {
 				ns = 0 // nothing is granted while the scripts run
 			}
+			if scn == "connlimited" && c09 && x == side {
+				ns = 2 + rng.Intn(3)
+			}
 			if scn == "neg-window" && x == side {
 				ns = 0
 				if phi == 1 {
@@ -1252,6 +1266,11 @@ func Gen(rng *rand.Rand, pf Profile, scn string) *Plan {
 					}
 					if rng.Intn(3) == 0 {
 						st.Act = "connfit" // exactly what is missing: all but one byte, then one byte
+					}
+					if scn == "connlimited" && c09 {
+						// room for one or two of the queued frames, not for those of all streams
+						st.Act, st.Inc, st.Rep = "wu", uint32(17000+rng.Intn(30000)), 1
+						st.After = 2*n/3 + rng.Intn(n-2*n/3+1) // late: frames of several streams are queued by then
 					}
 				}
 				steps = append(steps, st)
